@@ -31,7 +31,7 @@ template <> inline const sym::S<80> Pi<sym::S<80>>{sym::S<80>::Named("pi", Pi<lo
 // quantities come out as string templates.
 #define VERIF_PRINT_SPEC(F)                                                       \
   template <> inline std::string Print(const sym::S<F> value) {                   \
-    return std::string("\x01") + std::to_string(value.id) + std::string("\x02");  \
+    return std::string("\x01") + std::to_string(value.nid()) + std::string("\x02");  \
   }
 VERIF_PRINT_SPEC(32)
 VERIF_PRINT_SPEC(64)
@@ -223,7 +223,7 @@ struct Ctx {
   template <typename U>
   static std::string num_text(const U& x) {
 #ifndef VERIF_NATIVE
-    return sym::Str(x.id);
+    return sym::Str(x.nid());
 #else
     return HexOf(x);
 #endif
